@@ -347,3 +347,60 @@ func nlContext(ps []Piece, l *layout, off int) string {
 	}
 	return "line1"
 }
+
+// Open findings (ids as listed in known_findings.json). While one is listed
+// as open, exactly its shape is kept out of the explored space and counted.
+const (
+	findLC  = "C18-line-comment-column" // sig ...:nl-in-lc
+	findEOF = "C18-eof-position"        // sig eof-position:...
+)
+
+// lcShape tells whether some token, comment or unlexable tail starts on a
+// line whose preceding newline is the one that ends a # comment.
+func lcShape(ps []Piece) bool {
+	ctx := "line1"
+	for i, p := range ps {
+		if p.K != kWS && ctx == kLC {
+			return true
+		}
+		n := strings.Count(p.T, "\n")
+		switch {
+		case n == 0:
+		case p.K == kWS && i > 0 && ps[i-1].K == kLC && n == 1:
+			ctx = kLC
+		default:
+			ctx = p.K
+		}
+	}
+	return false
+}
+
+// avoidLCShape rewrites a piece list so that lcShape is false: the newline
+// which ends a # comment gets a second newline. Returns whether it changed anything.
+func avoidLCShape(ps []Piece) bool {
+	changed := false
+	for lcShape(ps) {
+		ctx := "line1"
+		at := -1
+		for i, p := range ps {
+			if p.K != kWS && ctx == kLC {
+				break
+			}
+			n := strings.Count(p.T, "\n")
+			switch {
+			case n == 0:
+			case p.K == kWS && i > 0 && ps[i-1].K == kLC && n == 1:
+				ctx = kLC
+				at = i
+			default:
+				ctx = p.K
+			}
+		}
+		if at < 0 {
+			break
+		}
+		ps[at].T += "\n"
+		changed = true
+	}
+	return changed
+}
